@@ -2,7 +2,7 @@
 From Coq Require Import List ZArith Bool Lia Permutation.
 From RecordUpdate Require Import RecordUpdate.
 From GB Require Import Model.Allowance Model.Batcher Proofs.Tactics Proofs.C01Inv Proofs.BatcherLocal
-  Proofs.BatcherLocal2 Proofs.BatcherInv2 Proofs.BatcherInv3.
+  Proofs.BatcherLocal2 Proofs.BatcherInv2 Proofs.BatcherInv3 Proofs.TargetInv Proofs.TokenInv.
 Import ListNotations.
 Open Scope Z_scope.
 (* Inflight() never exceeds the limit *)
@@ -33,3 +33,16 @@ Theorem C10_no_slot_leak_when_settled : forall c s b, reachable c s -> quiescent
 Proof. intros c s b R Q I. destruct (batchinv_reachable c s R) as (N & _). exact (quiescent_entered c s b Q I N). Qed.
 Print Assumptions C10_no_slot_leak_when_settled.
 
+
+(* Inflight() is exactly the number of batches in progress — raised and not finished, or under construction in the
+   current cycle — and no batch goroutine is stuck on the slot channel, in every execution in which no audit reset a
+   non-zero slot count (treach: ok_step_tok; the reset itself is C19's subject) *)
+Theorem C10_inflight_is_batches_in_progress : forall c s n,
+  treach c s -> c_gen c = V2 -> c_maxconc c = S n -> inflight s = in_progress s /\ leaked s = 0%nat.
+Proof. exact inflight_exact. Qed.
+Print Assumptions C10_inflight_is_batches_in_progress.
+
+(* the count invariant is preserved by every single step *)
+Theorem C10_step : forall c s l s' o, Conserved s -> TokInv c s -> ok_step_tok c s l -> step c s l = Some (s', o) -> TokInv c s'.
+Proof. exact tokinv_step. Qed.
+Print Assumptions C10_step.
